@@ -28,7 +28,7 @@ recorded in the evidence file under "symbolic_width_height".
 import time
 
 from sx.runner import Unit
-from sx.proxies import sand, sor, simplies, ite, smin, smax
+from sx.proxies import sand, sor, snot, simplies, ite, smin, smax, same_truth
 
 PROPERTY = "C11"
 
@@ -589,6 +589,48 @@ def h_links(ctx):
               "C11:links-from-vector-wrong", ((x, y), int(l)))
 
 
+def h_links_between(ctx, w, h, K):
+    """links_between(a, b, machine) is exactly the set of working links of
+    `a` whose vector leads to `b` on the w x h torus -- for every pair of
+    chips (structural) and every set of at most K dead links (one solver
+    boolean per link looked at)."""
+    from rig.place_and_route.machine import Machine
+    from rig.place_and_route.route.utils import links_between
+    from rig.links import Links
+    from harness import c03
+    chips = [(x, y) for x in range(w) for y in range(h)]
+    a = ctx.pick(chips)
+    b = ctx.pick(chips)
+    m = Machine(w, h)
+    linkset = c03.SymLinkSet(ctx, w, h, K, set(), set())
+    m.dead_links = linkset
+    try:
+        got = links_between(a, b, m)
+        back = links_between(b, a, m)
+    except Exception as e:
+        ctx.observe(type(e).__name__)
+        ctx.prove(False, "C11:links-between-raised", (a, b, repr(e)))
+        return
+    ctx.observe(sorted(int(l) for l in got), sorted(int(l) for l in back))
+    ctx.witness("several links" if len(got) > 1 else
+                "one link" if got else "no link")
+    ctx.prove(all(isinstance(l, Links) for l in got),
+              "C11:links-between-type")
+    for l in range(6):
+        lx, ly = REF_VEC[l]
+        joins = ((a[0] + lx) % w, (a[1] + ly) % h) == b
+        alive = snot(linkset.dead(a[0], a[1], l))
+        ctx.prove(same_truth(Links(l) in got, sand(joins, alive)),
+                  "C11:links-between-wrong-set",
+                  (w, h, a, b, l, sorted(int(x) for x in got)))
+        # ... and the way back is by the opposite links
+        opp = int(Links(l).opposite)
+        alive_back = snot(linkset.dead(b[0], b[1], opp))
+        ctx.prove(same_truth(Links(opp) in back, sand(joins, alive_back)),
+                  "C11:links-between-opposites-disagree",
+                  (w, h, a, b, l, sorted(int(x) for x in back)))
+
+
 # ----------------------------------------------------------------------
 # concentric_hexagons
 # ----------------------------------------------------------------------
@@ -825,6 +867,13 @@ def units(tier, seed):
                           "interleave",
                           "cut inside a ring that the later call needs",
                           "later call stops below the cut ring"))]
+    # which links join two chips: small tori are where several do
+    for (w, h) in ((1, 1), (1, 2), (2, 1), (2, 2), (2, 3), (3, 2), (3, 3)) + (
+            ((1, 3), (3, 1), (4, 2), (2, 4), (4, 4)) if thorough else ()):
+        us.append(Unit("links between chips %dx%d torus, dead links" % (w, h),
+                       h_links_between, dict(w=w, h=h, K=2),
+                       witnesses=(("one link",) if w * h > 1 else ()) + (
+                           ("several links",) if min(w, h) < 3 else ())))
     mag = 4 if thorough else 3
     for (w, h) in WALK_SIZES:
         us.append(Unit("walk %sx%s mag<=%d" % (w, h, mag), h_walk,
